@@ -30,7 +30,13 @@ CHECK = Check(
         "which the property does not claim",
         "Lag: buffer at least as long as int(timeLag) ≥ 0 (a shorter state row makes the Go code index out of range — modelled as an error)",
     ],
-    partial=[],
+    partial=[
+        "root_converges_partial: on the root-finder exit |residual| < massBalanceLimit is proved only when interval halving alone "
+        "suffices within the 20 iterations (residual non-decreasing and L-Lipschitz with L·(maxQI−minQI)/2^20 < 1e-3); missing: that the "
+        "secant/Newton trials always make 20 iterations suffice (for m < 1 the residual's slope is unbounded near q = 0). "
+        "calcOutflow_balance/run_balance therefore state the balance on that exit as 0 ≤ err ≤ max 0 residual, < massBalanceLimit when "
+        "FindRoot returned through its tolerance test; the oracle checks the unconditional statement on every generated step",
+    ],
 )
 
 META = dict(
